@@ -125,6 +125,10 @@ def variants(params: List[Dict[str, Any]]) -> Iterator[Dict[str, Any]]:
                     yield {'params': cand, 'flavour': 'func', 'excluded': excluded, 'view_ctx': False, 'twice': 'plain-first'}
         n_before_ko = len([p for p in ps if p['kind'] == 'PK'])
         yield {'params': ps[:n_before_ko] + [{'name': 'ctx', 'kind': 'KO', 'ctx': True}] + ps[n_before_ko:], 'flavour': 'func', 'excluded': excluded, 'view_ctx': False}
+        if ps and ps[0]['name'] == 'p0' and not excluded:
+            # client parameters named like attributes of pydantic's BaseModel (the extractor builds a model with such fields)
+            for attr in ('json', 'copy', 'dict', 'schema', 'validate', 'fields', 'construct'):
+                yield {'params': [{**ps[0], 'name': attr}] + ps[1:], 'flavour': 'func', 'excluded': excluded, 'view_ctx': False}
         if ps and ps[0]['name'] == 'p0':
             # a client parameter whose name is contained in the context parameter's name ('t' in 'ctx')
             rn = [{**ps[0], 'name': 't'}] + ps[1:]
@@ -155,7 +159,7 @@ class C17(Check):
         "exclusion predicate off / by name prefix / by missing annotation (an extra defaulted 'dep_' parameter, excluded in the extractor and in the validator) x function / view "
         "method, x the same function registered a second time without context designation (probed in both orders), x a leading positional-only parameter with a default (no parameter of a params object: never documented, never settable by name); (b) Hypothesis: signatures of up to 4 parameters with annotations. For each: the OpenAPI request schema and the OpenRPC params "
         "list are generated with PydanticSchemaExtractor, and ALL params objects over subsets of (documented names + one undocumented name + "
-        "the context name + the excluded name) are dispatched. Oracle: documented names == the signature's client parameters, documented "
+        "the context name + the excluded name), with values 1 and null, are dispatched. Oracle: documented names == the signature's client parameters, documented "
         "required == those without default, context / excluded names in neither document, both documents agree; a params object whose keys "
         "contain the required names and are within the documented names is never answered -32602, any other always is. evaluations = "
         "dispatched params objects. non-trivial = the signature has a default or a keyword-only or an excluded / context parameter; distinct = distinct spec."
@@ -277,16 +281,19 @@ class C17(Check):
         n_eval = 0
         for r in range(len(pool) + 1):
             for subset in itertools.combinations(pool, r):
-                n_eval += 1
-                text = json.dumps({'jsonrpc': '2.0', 'id': 1, 'method': exposed, 'params': {k: 1 for k in subset}})
-                resp = json.loads(d.dispatch(text, object())[0])
-                refused = resp.get('error', {}).get('code') == -32602
                 conforms = set(pub_required) <= set(subset) <= set(pub_names)
-                if conforms and refused:
-                    discs.append(Disc("C17/conforming-params-refused", f"params {sorted(subset)} satisfy the published names {pub_names} / required {pub_required} but got -32602 | {where}"))
-                    break
-                if not conforms and not refused:
-                    discs.append(Disc("C17/nonconforming-params-accepted", f"params {sorted(subset)} violate the published names {pub_names} / required {pub_required} but were not refused: {jg.short(resp)} | {where}"))
+                for value in (1, None):       # a member whose value is null is still a supplied member
+                    n_eval += 1
+                    text = json.dumps({'jsonrpc': '2.0', 'id': 1, 'method': exposed, 'params': {k: value for k in subset}})
+                    resp = json.loads(d.dispatch(text, object())[0])
+                    refused = resp.get('error', {}).get('code') == -32602
+                    if conforms and refused:
+                        discs.append(Disc("C17/conforming-params-refused", f"params {sorted(subset)} (values {value!r}) satisfy the published names {pub_names} / required {pub_required} but got -32602 | {where}"))
+                        break
+                    if not conforms and not refused:
+                        discs.append(Disc("C17/nonconforming-params-accepted", f"params {sorted(subset)} (values {value!r}) violate the published names {pub_names} / required {pub_required} but were not refused: {jg.short(resp)} | {where}"))
+                        break
+                if discs:
                     break
             else:
                 continue
